@@ -541,6 +541,10 @@ def run(chk):
     chk.guard(variants.apply, chk, "C06-R6", [("irispie.simultaneous._simulate", "Inlay.simulate")])
     from .. import unused as _unused
     chk.guard(_unused.apply, chk, "C06-R91")
+    from .. import endpoints as _endpoints
+    chk.guard(_endpoints.apply, chk, "C06-R11", {"stacked_time", "fords", "dataslates", "frames", "plans", "simultaneous", "period_by_period"})
+    from .. import once as _once
+    chk.guard(_once.apply, chk, "C06-R10")
     from .. import args as _args
     chk.guard(_args.apply, chk, "C06-R90", {'frames', 'period_by_period', 'simultaneous', 'stacked_time'}, 1)
     chk.assumptions = [
